@@ -1191,7 +1191,9 @@ class Spec:
                          "Mhd.C06.tpc_resume_is_served", "Mhd.C06.tpc_progress_one_iteration", "Mhd.C06.tpc_progress",
                          "Mhd.C06.tpc_no_recheck_loses_wakeup", "Mhd.C06.tpc_unnoticed_resume_loses_wakeup",
                          "Mhd.C06.tpc_unnoticed_resume_breaks_invariant", "Mhd.C06.connsm_wait_class_in_table",
-                         "Mhd.C06.code_backends_resume_every_cycle", "Mhd.C06.daemon_cycle_processes_resumes", "Mhd.C06.tpc_resume_request_is_served",
+                         "Mhd.C06.connsm_satisfies_laws", "Mhd.C06.connsm_satisfies_law_table", "Mhd.C06.connsm_satisfies_law_open",
+                         "Mhd.C06.no_lost_wakeup_connsm", "Mhd.C06.no_unexamined_input_when_quiescent", "Mhd.C06.tpc_no_lost_wakeup_connsm",
+                         "Mhd.C06.progress_connsm", "Mhd.C06.code_backends_resume_every_cycle", "Mhd.C06.daemon_cycle_processes_resumes", "Mhd.C06.tpc_resume_request_is_served",
                          "Mhd.C06.deaf_daemon_never_resumes", "Mhd.C06.code_reply_sent_continues", "Mhd.C06.reply_sent_leaves_no_unexamined_input", "Mhd.C06.reply_sent_break_loses_wakeup"]
     trusted_base = ["Lean 4 kernel", "axioms: propext, Classical.choice, Quot.sound at most (audited per theorem)",
                     "hand-written loop model lean/Mhd/Model/Loop.lean, LoopRounds.lean, LoopTpc.lean tied to daemon.c by this run's correspondence "
@@ -1199,7 +1201,11 @@ class Spec:
                     "tools/props/C06.py gen_loop (enum values regenerated semantically; the three saves-prev facts syntactically, "
                     "cross-checked by the correspondence: a wrong flag shows up as a call-order difference)",
                     "harness/h_loop.c (link-time wrappers around the handler entry points, white-box snapshots, interposed epoll_wait), gcc, ASan/UBSan",
-                    "the per-connection step is a parameter of the model (Ops); the theorems assume the law records Laws (Proofs/LoopCH), "
+                    "the per-connection step is a parameter of the model (Ops); for C05's state machine (Mhd.Model.ConnSM via Mhd.Model.LoopConnSM."
+                    "connsmOps) the safety laws Laws, LawTable and (without time-outs) LawOpen are PROVED (connsm_satisfies_laws …) and the select/"
+                    "poll/thread-per-connection no-lost-wake-up theorems are instantiated; what remains assumed for that step: ProgLaws (reply "
+                    "counter / measure) and the epoll-only laws of LawsEp (idle_quiet needs a consistency invariant); "
+                    "in general the theorems assume the law records Laws (Proofs/LoopCH), "
                     "LawsEp (LoopEpoll), ProgLaws / LawOpen (LoopProgress); frame, idle_where, idle_closed/LawOpen, read_force, idle_quiet, idle_buffered are "
                     "monitored on every logged handler call, idle_sync and ProgLaws are what the independent oracle tests end-to-end"]
     assumptions = ["event loops in the correspondence: external select, external epoll, MHD_poll_all with the internal thread and thread-per-connection "
